@@ -13,7 +13,7 @@ LEAF_IDX = os.path.join(troute.GEN, "index_leaf.txt")
 REQUIRED = [
     "orders_match_header", "order_setOrder", "legal_orders", "setOrder_order", "real_order_eq_model",
     "real_angleOrder_eq_model", "real_angleMapping_eq_model", "angleOrder_permutation", "angleMapping_inverts_angleOrder",
-    "toXYZVector_slots", "toXYZVector_setXYZVector", "setXYZVector_toXYZVector", "ctor_layouts", "toXYZVector_ctorXYZLayout",
+    "toXYZVector_slots", "toXYZVector_setXYZVector", "setXYZVector_toXYZVector", "ctor_layouts", "toXYZVector_ctorXYZLayout", "copy_and_assign",
     "toM33_raw", "toQuat_raw", "toMatrix44_eq_embed_toMatrix33", "toMatrix33_eq_spec", "toMatrix33_orthonormal_det_one", "toQuat_eq_spec", "toQuat_unit",
     "toQuat_toMatrix33_eq_toMatrix33", "toMatrix44_XYZ_eq_setEulerAngles",
     "extract_M44_eq_extract_M33", "extract_Quat_eq", "ctor_matrix_eq_extract", "reorder_ctor_eq",
@@ -56,7 +56,7 @@ SECTIONS = {
     "toXYZVector_setXYZVector": ["setXYZVector-inverse", "toXYZVector-inverse", "angleMapping"],
     "setXYZVector_toXYZVector": ["setXYZVector-inverse", "toXYZVector-inverse", "angleMapping"],
     "ctor_layouts": ["ctorXYZLayout", "ctorXYZLayoutScalars", "ctorIJKLayout", "order"],
-    "setOrder_keeps_angles": ["order"],
+    "setOrder_keeps_angles": ["order"], "copy_and_assign": ["order", "copy"],
     "toXYZVector_ctorXYZLayout": ["ctorXYZLayout", "toXYZVector-inverse"],
     "real_angleOrder_eq_model": ["angleOrder"], "angleOrder_permutation": ["angleOrder"],
     "real_angleMapping_eq_model": ["angleMapping"], "angleMapping_inverts_angleOrder": ["angleMapping"],
